@@ -122,7 +122,7 @@ def gen_doc(rng):
         else: body += shape(False)
     if rng.random() < 0.2:
         # a viewBox far from square with wide round strokes: the flattening tolerance derives from its smaller side
-        w = rng.choice([16, 20, 24])
+        w = rng.choice([20, 24, 28])
         vb = rng.choice(['0 0 40 900', '0 0 900 40'])
         body = (f'<polyline points="8,8 30,10 26,30" fill="none" stroke="{rng.choice(COL)}" stroke-width="{w}" stroke-linecap="round" stroke-linejoin="round"/>'
                 if rng.random() < 0.5 else f'<line x1="10" y1="12" x2="30" y2="26" stroke="{rng.choice(COL)}" stroke-width="{w}" stroke-linecap="round"/>')
@@ -134,7 +134,9 @@ def judge_doc(doc):
     except Exception: return None
     if re.search(r'\sstroke', out):
         return ('a stroked shape is replaced by filled outline geometry', 'no stroke attribute in the output', {'output': out[:2000]})
-    r = render.compare_documents(doc, out, (-4, -4, 52, 52), n=27, sharp_strokes=True)
+    # the far-from-square documents exist to expose too coarse a flattening of round caps / joins: a thin band, sample densely
+    dense = ' 900' in doc[:120]
+    r = render.compare_documents(doc, out, (-12, -12, 64, 64) if dense else (-4, -4, 52, 52), n=67 if dense else 27, sharp_strokes=True)
     if r is None or len(r) == 1: return None
     return ('the filled outlines composite like the stroked source at definitely-inside / definitely-outside points', {'point': r[0], 'colour': r[1]}, {'colour': r[2], 'output': out[:2500]})
 
